@@ -144,7 +144,7 @@ def simplify(sc):
         yield c
     for j, op in enumerate(sc["ops"]):
         if op["op"] == "record":
-            if op["num_blocks"] > 1:
+            if op.get("num_blocks", 1) > 1:
                 c = cp()
                 c["ops"][j]["num_blocks"] -= 1
                 yield c
